@@ -2,10 +2,11 @@
 from core import ASSUME_RUSTC, ASSUME_PATHS
 from flow import Flows
 from guard import Guards, check_refusal
+from panic import norm as panic_norm
 
 LEVEL = "other"
 EXPLANATION = (
-    "Decides THREE clauses of C10 (kind refusal; start nodes enumerated from the node store -- R-C10-2; R-C10-3: the adjacency maps the searches walk are only extended -- an entry is created only for a node that is new, never replaced for an existing one): each component function returns an error (never an answer) on the wrong kind of graph. "
+    "Decides FOUR clauses of C10 (R-C10-4: in strongly_connected_components every emission of a component is dominated by an operation on each visited-structure that guards a search step, so no node can be emitted where one of them is unaware of it; kind refusal; start nodes enumerated from the node store -- R-C10-2; R-C10-3: the adjacency maps the searches walk are only extended -- an entry is created only for a node that is new, never replaced for an existing one): each component function returns an error (never an answer) on the wrong kind of graph. "
     "Rule R-C10-1 (GUARD): in the MIR of connected_components, number_of_connected_components, node_connected_component "
     "(refuse directed) and weakly_/strongly_connected_components (refuse undirected), every block that can produce a non-error "
     "return value is reachable from the entry only through the continue edge of a guard -- a test of specs.directed, or the "
@@ -68,6 +69,78 @@ def run(ctx):
         cal = {b.blocks[n_[1]].term.callee.short.split("::")[-1] for n_ in sl if n_[0] == "CALL" and b.blocks[n_[1]].term.callee}
         ok = bool(cal & {"get_all_node_names", "get_all_nodes"}) and not (cal & {"get_successors_map", "get_predecessors_map", "keys", "get_all_edges"})
         ctx.require(ok, "R-C10-2", "outer-loop|" + b.short, "%s starts a search from every node of the node store" % sfx.split("::")[-1], "%s enumerates its start nodes from %s: a node without an entry there (e.g. an isolated node) ends up in no component" % (sfx.split("::")[-1], sorted(cal)), loc_str(t.span))
+    # ------------------------------------------------------------------ R-C10-4
+    # A search that keeps more than one "visited" structure (Tarjan-style: preorder numbers decide whether the
+    # descent enters a node, the set of finished nodes decides where a new search starts) emits each node once only
+    # if every emission happens where ALL of them have been consulted for the emitted root: an emission reached
+    # without touching one of them leaves that structure unaware of the node, and a later search enters and emits it
+    # again.
+    ctx.rule("R-C10-4", "strongly_connected_components: every emission of a component is dominated by a test of / an insertion into each visited-structure that guards a search step")
+    scc = prog.one("strong_connectivity::strongly_connected_components")
+    sf = flows.of(scc)
+    from props.c01 import controlling_atoms as _ca
+    from flow import fmt_desc as _fd
+
+    ret = sf.slice_local([("L", 0)], data_only=True)
+
+    def recv_locals(t):
+        return {o[1] for o in sf._operand_pts(t.args[0]) if o[0] == "L"} if t.args and t.args[0].place is not None else set()
+
+    pushes = [t for t in scc.calls() if t.callee and t.callee.short.endswith("Vec::push")]
+    emits = [t for t in pushes if any(("L", l) in ret and scc.local_ty(l).startswith("std::vec::Vec<std::collections::HashSet<") for l in recv_locals(t))]
+    work_pushes = [t for t in pushes if t not in emits]
+    guards = {}  # local of the visited-structure -> blocks that operate on it
+
+    def struct_local(te):
+        """the local behind the receiver of a contains / contains_key test (found through the test's call)"""
+        return None
+
+    # visited-structures: receivers of contains / contains_key calls whose outcome controls a push onto a work list,
+    # or controls the creation of the work list (the decision to start a new search)
+    tests = [t for t in scc.calls() if t.callee and t.callee.short.split("::")[-1] in ("contains_key", "contains") and t.args]
+    controlled = set()
+    for t in work_pushes:
+        controlled |= {a for (a, s_) in scc.transitive_control_deps(t.bb) if not isinstance(a, tuple)}
+    for blk in scc.normal_blocks():
+        if blk.term.k == "call" and blk.term.callee and ("from_elem" in blk.term.callee.short or blk.term.callee.short.endswith("into_vec") or blk.term.callee.short.endswith("Vec::new")) and "Vec<&" in blk.term.dest.ty:
+            controlled |= {a for (a, s_) in scc.transitive_control_deps(blk.i) if not isinstance(a, tuple)}
+    for t in tests:
+        # does this test's result feed one of the controlling switches?
+        for a in controlled:
+            sl = sf.slice_local(sf._op_reads(scc.blocks[a].term.discr), data_only=True)
+            if ("CALL", t.bb) in sl:
+                for l in recv_locals(t):
+                    if "HashMap<" in scc.local_ty(l) or "HashSet<" in scc.local_ty(l):
+                        guards.setdefault(l, set())
+    for t in scc.calls():
+        if t.callee and t.callee.short.split("::")[-1] in ("contains_key", "contains", "insert", "get", "entry", "union", "extend"):
+            for l in recv_locals(t):
+                if l in guards:
+                    guards[l].add(t.bb)
+    # a structure that is replaced wholesale (`found = found.union(..).collect()`) is also updated where it is assigned
+    for l in guards:
+        for (dbb, d) in scc.assigns_to(l):
+            guards[l].add(dbb)
+    # only operations inside the loop over the start nodes count (the creation of the structure before the loop
+    # dominates everything and says nothing)
+    outer_blocks = set()
+    for t in scc.calls():
+        if t.callee and t.callee.short == "std::iter::Iterator::next":
+            lb = natural_loop_blocks(scc, t.bb)
+            if emits and all(e.bb in lb for e in emits) and len(lb) > len(outer_blocks):
+                outer_blocks = set(lb)
+    if outer_blocks:
+        guards = {l: {x for x in v if x in outer_blocks} for l, v in guards.items()}
+    guards = {(scc.local_name(l) or "_%d" % l): v for l, v in guards.items()}
+    ctx.counters["scc_visited_structures"] = sorted(guards)
+    n_em = 0
+    for t in emits:
+        n_em += 1
+        missing = [g for g, bbs in sorted(guards.items()) if not any(scc.dominates(x, t.bb) for x in bbs)]
+        ctx.require(not missing, "R-C10-4", "emission|%d" % n_em, "the emission is dominated by an operation on each of %s" % sorted(guards), "a component is emitted on a path that never consults %s: the search later enters that node again and emits it a second time (the components are then not disjoint)" % missing, loc_str(t.span))
+    ctx.floor("R-C10-4", "emissions", n_em, 1)
+    ctx.floor("R-C10-4", "visited_structures", len(guards), 1)
+
     # ------------------------------------------------------------------ R-C10-3
     ctx.rule("R-C10-3", "the adjacency maps the searches walk are only ever extended: a whole-entry insert into them happens only for a node that is new")
     from effects import Effects
